@@ -57,7 +57,7 @@ var props = map[string]propCfg{
 		Quick:    []phase{{"static", false, 25 * time.Second, false}, {"static", true, 15 * time.Second, false}, {"static", false, 10 * time.Second, true}},
 		Thorough: []phase{{"static", false, 8 * time.Minute, false}, {"static", true, 4 * time.Minute, false}, {"static", false, 2 * time.Minute, true}, {"static", true, 2 * time.Minute, true}}},
 	"C05": {Engine: "conc",
-		Quick:    []phase{{"conc", false, 20 * time.Second, false}, {"conc", true, 25 * time.Second, false}, {"conc", false, 15 * time.Second, true}, {"conc", true, 15 * time.Second, true}},
+		Quick:    []phase{{"conc", false, 20 * time.Second, false}, {"conc", true, 20 * time.Second, false}, {"conc", false, 25 * time.Second, true}, {"conc", true, 15 * time.Second, true}},
 		Thorough: []phase{{"conc", false, 5 * time.Minute, false}, {"conc", true, 9 * time.Minute, false}, {"conc", false, 4 * time.Minute, true}, {"conc", true, 6 * time.Minute, true}}},
 }
 
